@@ -50,6 +50,19 @@ class DefaultPolicy:
         return runnable[-1]
 
 
+class BackgroundLastPolicy(DefaultPolicy):
+    """serial; the tasks in `bg` (threads a server started by itself) run only when they are handed the baton explicitly
+    (Scheduler.yield_now) or when nothing else can run"""
+    kind = "background_last"
+
+    def __init__(self):
+        self.bg = set()
+
+    def at_block(self, k, runnable):
+        pref = [t for t in runnable if t.tid not in self.bg]
+        return (pref or runnable)[-1]
+
+
 class ReplayPolicy:
     kind = "replay"
 
